@@ -219,7 +219,12 @@ func (run *FuncRun) checkPost(st *State, res Val, in *ssa.Return) {
 		if run.cone != nil && !run.cone[cl.Label] && !run.cone["*"] {
 			continue
 		}
-		goals := env.proveGoals(cl.Expr)
+		cenv := env
+		if cl.Internal {
+			cenv = env.clone()
+			cenv.frame = st.frame
+		}
+		goals := cenv.proveGoals(cl.Expr)
 		run.addGoals(st, "post", cl.Label, goals, cl.Src, cl.Where)
 	}
 	if fc.HasAssigns {
@@ -305,14 +310,14 @@ func (env *CEnv) assignSetOfItems(items []AssignItem, where string) *assignSet {
 			}
 			so := reg.SortOf(elem)
 			comp := compCell(so)
-			if _, isS := elem.Underlying().(*types.Struct); isS {
+			if _, isS := under(elem).(*types.Struct); isS {
 				comp = compStruct(so)
 			}
 			as.comps[comp] = ArrSort(SInt, so)
 			as.whole[comp] = append(as.whole[comp], ref)
 		case "field":
 			x := env.eval(it.X)
-			pt, ok := x.Type.Underlying().(*types.Pointer)
+			pt, ok := under(x.Type).(*types.Pointer)
 			if !ok {
 				fail("%s: assigns %s: not a pointer to struct", fc.Where, it.Name)
 			}
@@ -331,11 +336,11 @@ func (env *CEnv) assignSetOfItems(items []AssignItem, where string) *assignSet {
 			as.frefs[comp][x.T.S] = x.T
 		case "deref":
 			x := env.eval(it.X)
-			switch u := x.Type.Underlying().(type) {
+			switch u := under(x.Type).(type) {
 			case *types.Pointer:
 				so := reg.SortOf(u.Elem())
 				var comp string
-				if _, isS := u.Elem().Underlying().(*types.Struct); isS {
+				if _, isS := under(u.Elem()).(*types.Struct); isS {
 					comp = compStruct(so)
 				} else {
 					comp = compCell(so)
@@ -356,7 +361,7 @@ func (env *CEnv) assignSetOfItems(items []AssignItem, where string) *assignSet {
 			}
 		case "elems":
 			x := env.eval(it.X)
-			sl, ok := x.Type.Underlying().(*types.Slice)
+			sl, ok := under(x.Type).(*types.Slice)
 			if !ok {
 				fail("%s: assigns x[..]: x must be a slice, got %s", fc.Where, x.Type)
 			}
@@ -518,6 +523,9 @@ func (run *FuncRun) applyContract(st *State, fc *FuncContract, sig *types.Signat
 	post := &CEnv{run: run, st: st, cur: st, old: pre, vars: env.vars, pkg: fc.Pkg, tsubst: env.tsubst, closures: env.closures}
 	run.bindResults(post, sig, res, fc)
 	for _, cl := range fc.Ensures {
+		if cl.Internal {
+			continue
+		}
 		t := post.evalBool(cl.Expr)
 		for _, f := range post.takeFacts() {
 			st.Assume(f)
@@ -621,7 +629,7 @@ func (run *FuncRun) execBuiltin(st *State, bi *ssa.Builtin, c *ssa.CallCommon, a
 	switch bi.Name() {
 	case "len":
 		x := run.valToTerm(st, args[0])
-		switch u := c.Args[0].Type().Underlying().(type) {
+		switch u := under(c.Args[0].Type()).(type) {
 		case *types.Slice:
 			return SliceLen(x)
 		case *types.Map:
@@ -633,7 +641,7 @@ func (run *FuncRun) execBuiltin(st *State, bi *ssa.Builtin, c *ssa.CallCommon, a
 		case *types.Array:
 			return IntLit(u.Len())
 		case *types.Pointer:
-			return IntLit(u.Elem().Underlying().(*types.Array).Len())
+			return IntLit(under(u.Elem()).(*types.Array).Len())
 		case *types.TypeParam:
 			if core := coreOf(u); core != nil {
 				switch cu := core.(type) {
@@ -698,7 +706,7 @@ func (run *FuncRun) execBuiltin(st *State, bi *ssa.Builtin, c *ssa.CallCommon, a
 }
 
 func coreMap(t types.Type) *types.Map {
-	switch u := t.Underlying().(type) {
+	switch u := under(t).(type) {
 	case *types.Map:
 		return u
 	case *types.TypeParam:
@@ -719,7 +727,7 @@ func coreMap(t types.Type) *types.Map {
 }
 
 func coreSlice(t types.Type) *types.Slice {
-	switch u := t.Underlying().(type) {
+	switch u := under(t).(type) {
 	case *types.Slice:
 		return u
 	}
@@ -749,7 +757,7 @@ func (run *FuncRun) execAppend(st *State, c *ssa.CallCommon, args []Val, in ssa.
 	es := reg.SortOf(sl.Elem())
 	name := compArr(es)
 	aso := ArrSort(SInt, ArrSort(SInt, es))
-	if c.Args[1].Type().Underlying() == types.Typ[types.String].Underlying() {
+	if under(c.Args[1].Type()) == types.Typ[types.String].Underlying() {
 		// append([]byte, string...)
 		res := st.Fresh("appended", SSlice)
 		st.assumeSliceWF(res)
@@ -801,11 +809,11 @@ func (run *FuncRun) staticElems(st *State, v ssa.Value, t Term, es Sort) (int, [
 	if !ok || sl.High != nil {
 		return -1, nil
 	}
-	pt, ok := sl.X.Type().Underlying().(*types.Pointer)
+	pt, ok := under(sl.X.Type()).(*types.Pointer)
 	if !ok {
 		return -1, nil
 	}
-	at, ok := pt.Elem().Underlying().(*types.Array)
+	at, ok := under(pt.Elem()).(*types.Array)
 	if !ok || at.Len() > 8 {
 		return -1, nil
 	}
